@@ -13,15 +13,15 @@ import check  # noqa: E402
 
 META = {
     'C01': ('bigWig round trip, per function and per hand-over: section encoder == published layout and decoder == exact filter/clip of the stored items in both byte orders, decode(encode(items)) == items (bw_enc, bw_dec); batching keeps every accepted value once, in order, under one chromosome id (bw_batch, procs, create); the serial source feeds the processors each value once with the right `next` (feed); section offsets are rebased to file positions in every mode (sec_offsets); chromosome table bytes == the list handed over, in order, with the supplied sizes (chrom_tree); header/offset data flow through the four writer bodies (mutual, hdr, write_pre, zoom_levels); R-tree layout and search (rt_layout, rt_nodes, rt_search, rt_readnode, info, cache). All unbounded, by Verus, on function text cut from /repo every run.',
-            'NOT decided: the tokio task pipeline / channel order (hand-off shims are assumed order-preserving; multi-threaded scheduling is C11, not claimed), zlib (inflate(deflate(x)) == x assumed), `get_rtreeindex` builds covering spans (bounded Kani stand-in rt_build only), chromosome-id assignment inside `write_vals` (generic iterator code). The property is established per function and per hand-over, not as one theorem about the composed writer.'),
+            'NOT decided: the tokio task pipeline / channel order (hand-off shims are assumed order-preserving; multi-threaded scheduling is C11, not claimed), zlib (inflate(deflate(x)) == x assumed), the iterator plumbing of `get_rtreeindex` is desugared into loops by documented structural substitutions (the itertools `chunks` contract is assumed; rt_tree), the BTreeMap/HashMap collects of the glue. The property is established per function and per hand-over, not as one theorem about the composed writer.'),
     'C02': ('bigBed round trip: validation-then-batching keeps every accepted entry once, in order, unchanged, in start-sorted batches and refuses exactly the unrepresentable ones (bb_batch, procs, create); block encoder == published layout, decoder == order-preserving filter, round-trip lemma (bb_enc, bb_dec); feeding, offsets, chromosome table, headers, autoSql text stored verbatim with the field count derived from it (feed, sec_offsets, chrom_tree, hdr, write_pre, mutual); index layout and search as C01.',
-            'NOT decided: task pipeline/channels, zlib, `rest` treated as bytes (UTF-8-ness dropped), get_rtreeindex (bounded only).'),
+            'NOT decided: task pipeline/channels (sequentialised, R1/R2), zlib, `rest` treated as bytes (UTF-8-ness dropped).'),
     'C03': ('bigWig range query: per block the result == stored items with end > s && start < e (and s < e), clipped, in stored order, for section types 1-3 and both byte orders (bw_dec); the iterator state machine drains every block the index search returned, in order, once (iters); name -> id -> tree -> iterator glue (query_glue); the per-base `values()` array agrees with the interval answers, NaN elsewhere (bw_values); caching reader == plain reader for every history of queries and after reopen (cache); header/zoom directory decode (info); index search == linear scan given covering spans (rt_nodes, rt_search, rt_readnode); R-tree locating/caching of offsets (tree_offsets when enabled).',
-            'NOT decided: get_rtreeindex spans (bounded), zlib, chromosome B+ tree lookups beyond a single leaf block.'),
-    'C04': ('bigBed range query: block span covers every entry of the block (bb_enc), decoder returns the order-preserving filter (bb_dec), `overlaps` == closed-span intersection in (chrom, base) order with the no-miss lemmas (rt_nodes, cmp_k/Kani), iterator/glue/cache as C03 (iters, query_glue, cache), index layout (rt_layout).',
-            'NOT decided unboundedly: R-tree node spans cover their children (get_rtreeindex is iterator-adaptor code; bounded Kani stand-in rt_build only).'),
-    'C05': ('R-tree: `compare_position`/`overlaps` against the lexicographic spec (rt_nodes; cmp_k by Kani contract over full-width inputs), `nodes_overlapping` == order-preserving filter; work-list search == pre-order DFS of the pointer graph == linear scan given covering spans, with error propagation and termination (rt_search); node decoding, 24/32-byte items (rt_readnode; rt_items by Kani, complete); on-disk layout: child pointers == real positions for every well-formed tree (rt_layout); caching reader returns the same nodes (cache).',
-            'NOT decided unboundedly: that get_rtreeindex builds a well-formed tree with covering spans (itertools chunks/closures are outside Verus; bounded Kani stand-in rt_build, labelled bounded), so "search == linear scan" is proved relative to that assumption.'),
+            'NOT decided: zlib; the itertools `chunks` contract behind get_rtreeindex is assumed (rt_tree).'),
+    'C04': ('bigBed range query: block span covers every entry of the block (bb_enc), decoder returns the order-preserving filter (bb_dec), `overlaps` == closed-span intersection in (chrom, base) order with the no-miss lemmas (rt_nodes, cmp_k/Kani), iterator/glue/cache as C03 (iters, query_glue, cache), index layout (rt_layout), tree construction (rt_tree, rt_spans).',
+            'Assumed: the itertools `chunks` contract (consecutive groups of block_size, last one shorter) behind get_rtreeindex; with it, covering spans and well-formedness of the built tree are proved for every section count (rt_tree, rt_spans).'),
+    'C05': ('R-tree: `compare_position`/`overlaps` against the lexicographic spec (rt_nodes; cmp_k by Kani contract over full-width inputs), `nodes_overlapping` == order-preserving filter; work-list search == pre-order DFS of the pointer graph == linear scan given covering spans, with error propagation and termination (rt_search); node decoding, 24/32-byte items (rt_readnode; rt_items by Kani, complete); on-disk layout: child pointers == real positions for every well-formed tree (rt_layout); caching reader returns the same nodes (cache); construction of the tree: well-formed for the layout writer, covering spans on every level, every section once in order, termination for block_size >= 2 (rt_tree, rt_spans).',
+            'The chain is closed for every tree size: get_rtreeindex builds a well-formed covering tree (rt_tree, rt_spans; itertools `chunks` contract assumed), the layout writer stores it with correct child pointers (rt_layout), the search over covering spans equals the linear scan (rt_search). What connects the in-memory tree to the bytes the reader parses is rt_layout\'s decode statement; zlib is assumed.'),
     'C06': ('whole-file summary: per-value update exact on integers (items, bases) and shape-pinned on floats (bw_batch); bigBed sweep accounting with exact depth segments (bb_sweep); cross-chromosome fold incl. "a chromosome without covered bases contributes no min/max" (sum_acc); initial processor state (create); the summary and count are stored at the offsets the header names (hdr, zoom_levels); life-cycle (procs).',
             'NOT decided: float rounding (floats are uninterpreted with totality/determinism axioms: shape only), IndexList behaves as a sequence (assumed shim contract).'),
     'C07': ('bigWig zoom: per-level tiling invariant with exact bases_covered == data bases in the record span, disjoint ordered records of length <= resolution, every data base in exactly one record, batches 1..=items_per_slot, nothing pending at chromosome end, termination (bw_zoom); zoom sizes positive, sorted, deduplicated, <= 10 levels (zoom_sizes, zoom_levels); zoom block bytes == published 32-byte layout, span covers records (zoom_enc), decoder and iterator (zoom_dec, iters, query_glue); offsets (sec_offsets); initial state (create).',
@@ -29,13 +29,13 @@ META = {
     'C08': ('bigBed zoom: tiling layer over the flushed depth segments with exact covered-base counts and min/max from the actual depth (bb_zoom, bb_sweep via procs), shared zoom encoder/decoder/levels/offsets units as C07.',
             'NOT decided: as C07.'),
     'C09': ('well-formed file: every writer unit has `bytes == format spec` postconditions written from the published layout, sharing no code with the readers: data blocks (bw_enc, bb_enc), zoom blocks (zoom_enc), header / zoom directory / summary / data count with frame conditions (hdr, write_pre, zoom_levels), chromosome tree (chrom_tree), R-tree layout (rt_layout), section offsets (sec_offsets), cross-stage consistency of the offsets (mutual), at most items_per_slot items of one chromosome per block (bw_batch, bb_batch, bw_zoom, bb_zoom).',
-            'NOT decided: zlib stream validity and compressed size <= advertised buffer (libdeflater assumed), get_rtreeindex (bounded).'),
+            'NOT decided: zlib stream validity (libdeflater assumed). The advertised buffer is the maximum over all data and zoom blocks in both writers (chrom_pipe, zoom_tail).'),
     'C10': ('readers decode any spec-conforming bytes: block decoders proved against arithmetic decode specs with a symbolic byte order (bw_dec types 1-3, bb_dec, zoom_dec), header/zoom directory decode (info), R-tree node/item decoders for both byte orders (rt_readnode; rt_items Kani complete), node filter and search (rt_nodes, rt_search), iterators/glue/caches (iters, query_glue, cache, bw_values).',
             'NOT decided: multi-level chromosome trees (read_chrom_tree_block), libdeflater inflate.'),
     'C12': ('staging buffer: sequential protocol of the real TempFileBufferWriter/TempFileBuffer methods against a ghost `written` stream; every order of whole operations delivers d0 ++ written (tfb).',
             'ASSUMED, not proved: each method touches shared state through single linearizable swaps, so every interleaving is equivalent to an order of whole operations; condvar wake-ups / deadlock freedom not modelled.'),
-    'C13': ('refusal as an IFF with no state change on Err for bigWig and bigBed process_val (bw_batch, bb_batch, procs); source-side order/refusal propagation (feed); every loop in every unit has a proved termination measure (zoom tiling, zoom-count loops, sweep, zoom_sizes: no zero resolution reaches the tiling loop); absence of panics = overflow/index/assert obligations under stated preconditions.',
-            'NOT decided: error propagation through spawned tasks and "never hangs" for the task pipeline (schedules), get_rtreeindex termination (bounded Kani harness only).'),
+    'C13': ('refusal as an IFF with no state change on Err for bigWig and bigBed process_val (bw_batch, bb_batch, procs); source-side order/refusal propagation (feed); every loop in every unit has a proved termination measure (zoom tiling, zoom-count loops, sweep, zoom_sizes: no zero resolution reaches the tiling loop; get_rtreeindex level loop incl. empty input: rt_tree); malformed lines refused on the serial and the parallel path, a chromosome that starts a second run refused (bedparse, feed, feed_par, chrom_ids); no overflow panics in the zoom level choice; hand-off channels sized for one message per chromosome (zoom_tail); absence of panics = overflow/index/assert obligations under stated preconditions.',
+            'NOT decided: "never hangs" for the concurrent task pipeline (schedules; the pipeline code is verified sequentialised, R1/R2).'),
     'C15': ('gap filling: FillValues::next enumerates exactly the specified gapless tiling (fill); merge_into pairwise split/sum (Kani complete, merge_into); merge tool clip/adjust/threshold closures (mv_adjust).',
             'NOT decided: ValueIter 50 000-base window accumulator and output naming - no function boundary within reach; stated in DESIGN §6 C15.'),
     'C16': ('command-line converters, the sequential core: bigwigtobedgraph / bigbedtobed write one line per record of ONE range query per wanted chromosome, in file order, with start/end honoured only together with a chromosome (so a restricted output is exactly the range-query result), rest columns verbatim; the multi-threaded writers hand the per-chromosome texts over in chromosome order, which equals the single-threaded text given the same per-chromosome lines (conv_out); bedgraphtobigwig / bedtobigbed hand every option to its writer slot and end in exactly one write call on the given input for every (threads, parallel, single-pass, stdin) combination (conv_opts); every input line becomes one record with the fields of that line or a refusal (bedparse). Relative to the C01/C02/C03/C04 contracts of the library.',
